@@ -472,7 +472,8 @@ Proof.
          end.
   - cbn [has_sf] in Hsf. cbn [is_op_cached] in H. minv H; try reflexivity.
     rewrite subs_go_eq in H.
-    apply orb_false_iff in Heqb0. destruct Heqb0 as [_ ->]. cbn [orb] in Hsf.
+    match goal with Hn : _ || sf = false |- _ => apply orb_false_iff in Hn; destruct Hn as [_ ->] end.
+    cbn [orb] in Hsf.
     exact (subs_never_served subs IH _ _ _ _ _ Hsf H).
 Qed.
 
